@@ -44,6 +44,42 @@ func (sysClock) Step(offset time.Duration)                        {}
 func (sysClock) Adjust(offset, duration time.Duration, f float64) {}
 func (sysClock) Sleep(d time.Duration)                            { time.Sleep(d) }
 
+// capHandler records the errors of failed exchanges (logged by MeasureClockOffsetSCION).  The scripted peer
+// makes an exchange fail only with a reply that fails the metadata check; any other exchange error (a late
+// fallback transmit timestamp on a loaded machine, a socket error) is a disturbance of the environment: such
+// a round is not recorded and ends its history.
+type capHandler struct {
+	mu   sync.Mutex
+	errs []string
+}
+
+func (h *capHandler) Enabled(_ context.Context, l slog.Level) bool { return l >= slog.LevelInfo }
+func (h *capHandler) Handle(_ context.Context, r slog.Record) error {
+	if r.Message != "failed to measure clock offset" {
+		return nil
+	}
+	r.Attrs(func(a slog.Attr) bool {
+		if a.Key == "error" {
+			h.mu.Lock()
+			h.errs = append(h.errs, a.Value.String())
+			h.mu.Unlock()
+		}
+		return true
+	})
+	return nil
+}
+func (h *capHandler) WithAttrs([]slog.Attr) slog.Handler { return h }
+func (h *capHandler) WithGroup(string) slog.Handler      { return h }
+func (h *capHandler) take() []string {
+	h.mu.Lock()
+	defer h.mu.Unlock()
+	e := h.errs
+	h.errs = nil
+	return e
+}
+
+const expectedExchangeError = "unexpected response structure"
+
 // recFilter is the recording measurements.Filter of one client: Do returns the scripted values.
 type recFilter struct {
 	mu     sync.Mutex
@@ -242,7 +278,10 @@ var (
 	thePeer *peer
 	ia      = addr.MustParseIA("1-ff00:0:110")
 	fpIDs   map[string]int64
-	dlog    = slog.New(slog.DiscardHandler)
+	capH    = &capHandler{}
+	dlog    = slog.New(capH)
+	disturbed = map[string]int{}
+	roundsRun int
 	slowRounds, abandoned, deadlineHits int
 )
 
@@ -340,6 +379,8 @@ func runHist(tags string, h *histIn) {
 		for k, f := range r.fps {
 			ps[k] = mkPath(k, f)
 		}
+		capH.take()
+		roundsRun++
 		start := time.Now()
 		var off time.Duration
 		var err error
@@ -355,6 +396,16 @@ func runHist(tags string, h *histIn) {
 			_, off, err = client.MeasureClockOffsetSCION(ctx, dlog, ntpcs, laddr, raddr, ps)
 		})
 		hitDeadline := time.Since(start) >= roundTimeout
+		unexpected := ""
+		for _, e := range capH.take() {
+			if e != expectedExchangeError {
+				unexpected = e
+			}
+		}
+		if unexpected != "" && !hitDeadline && !panicked {
+			disturbed[unexpected]++
+			break
+		}
 		if hitDeadline {
 			// the round did not end before its context did although every request is answered at once:
 			// recorded as it is (the clients that never probed show up as non-participants)
